@@ -213,7 +213,7 @@ def _fm_core(cur, limit):
         # variables with large coefficients (carry symbols of modular
         # arithmetic) are eliminated last so that the single-variable
         # constraints left on them get integer-tightened
-        best = min(mx, key=lambda s: (mx[s] > 1024, pos[s] * neg[s] - pos[s] - neg[s]))
+        best = min(mx, key=lambda s: (mx[s] >= 128, pos[s] * neg[s] - pos[s] - neg[s]))
         P = []
         N = []
         rest = {}
